@@ -25,7 +25,7 @@ package c16
 //   - zero-length content as nil, []byte{} and buf[:0] of a non-empty buffer.
 //
 // One scribble point is generated but only labelled, not judged (coordinator
-// decision pending, see spec.json assumptions): the SignedData and
+// decision, see spec.json assumptions): the SignedData and
 // SignedAndEnvelopedData builders keep the caller's content / digest slice and
 // read it when a signer is added, so overwriting it between the constructor and
 // AddSigner yields a message whose signature covers the overwritten bytes.
@@ -92,15 +92,14 @@ func intact(what string, got, want []byte) error {
 	return nil
 }
 
-const kfPadSpare = "KF-C16-content-pad-spare-capacity"
-
-// padSpareAsserted: whether writing the PKCS#7 padding into the spare
-// capacity of the caller's content slice (CBC/ECB content ciphers, see
-// proposed/content-cipher-pads-into-callers-spare-capacity.patch) is judged.
-// Observed on /repo HEAD; the fix-vs-known-finding decision is the
-// coordinator's. Until then the observation is labelled, and excluded through
-// the known-findings file if listed there.
-const padSpareAsserted = false
+// Observation, recorded as a class and not judged (coordinator decision: the
+// C16 statement says nothing about caller memory behind the content, and the
+// pattern Pad(caller's slice) is library-wide): the CBC/ECB content ciphers
+// (pkcs/cipher.go) run the append-style padding.Pad on the caller's content
+// slice, so the PKCS#7 padding octets land in the caller's spare capacity.
+// Exactly those octets are tolerated; anything else there, any change for a
+// GCM content cipher, and every other argument are judged. Proposed repair:
+// proposed/content-cipher-pads-into-callers-spare-capacity.patch.
 
 // intactContent is intact for a content slice handed to an encrypting call.
 func intactContent(what string, got, want []byte, padding bool, r *h.Rec) error {
@@ -130,14 +129,7 @@ func intactContent(what string, got, want []byte, padding bool, r *h.Rec) error 
 	if !ok {
 		return err
 	}
-	if r.Known(kfPadSpare) {
-		r.Label("known:padding-written-into-callers-spare-capacity")
-		return nil
-	}
-	if padSpareAsserted {
-		return fmt.Errorf("%v (the PKCS#7 padding of the CBC/ECB content cipher)", err)
-	}
-	r.Label("observed(decision pending):padding-written-into-callers-spare-capacity")
+	r.Label("observed:content-pad-written-into-spare-capacity")
 	return nil
 }
 
